@@ -36,7 +36,9 @@ Section ExecUnk.
     | u_special t v : tk t = KSpecial -> inert_txt t = true ->
                       assoc (txt t) (t_special_values T) = Some v -> ucls ms t
     (* text generated from a macro body: pinned to the call *)
-    | u_gen t : pfix t = true -> gtok T t -> ucls ms t.
+    | u_gen t : pfix t = true -> gtok T t -> ucls ms t
+    (* the material of \verb|...| *)
+    | u_verb t : tk t = KVerb false -> has_nl (txt t) = false -> ucls ms t.
 
   (* names of the undeclared control words, in order *)
   Definition names (toks : list tok) : list str :=
@@ -112,6 +114,12 @@ Section ExecUnk.
     step_seq T rd rec fuel st (t :: b) env_stop rout =
     rec (TSeq b env_stop (mk KText (pos t) v (pfix t) :: ActionT (pos t) :: rout)) st.
   Proof. intros Hk Hi Hv. apply step_seq_special; assumption. Qed.
+
+  Lemma step_verb rec fuel st t b env_stop rout :
+    tk t = KVerb false ->
+    step_seq T rd rec fuel st (t :: b) env_stop rout =
+    rec (TSeq b env_stop (mk KText (pos t) (txt t) (pfix t) :: ActionT (pos t) :: rout)) st.
+  Proof. intros Hk. unfold step_seq. rewrite Hk. reflexivity. Qed.
 
   (* skip_space keeps the class and loses neither names nor text *)
   Lemma skip_space_suffix b : exists pre, b = pre ++ skip_space b /\
